@@ -81,6 +81,166 @@ Example c04_nonvacuous :
   t_accounted t = 5 /\ t_out t = [104; 101; 108] /\ w_ended (c_writer (t_call t)) = true.
 Proof. split; [repeat split|]; vm_compute; auto. Qed.
 
+
+(* ================================================================== additions (review 1) *)
+From Hoot Require Import Chunk Httparse Parser Url Flow.
+From Hoot.proofs Require Import C17_proofs C02_proofs C02_entry C04_more.
+
+(* ------------------------------------------------------------------ "when the request declares Content-Length N" *)
+
+(** Entry condition, from the REQUEST: a flow as Prepare leaves it ([prepared]: built by [Flow::new],
+    [header], [send_body_despite_method] or a redirect, see C02 [c02_prepared_reachable]) that analysis
+    accepts, whose effective headers carry no chunked Transfer-Encoding and one Content-Length of
+    value n.  Once its head is out (any buffers) the flow holds a with-body call that satisfies the
+    premise [sized_body _ n false] of the theorems above, it intends to send a body, and advancing
+    leads -- directly or through Await100 -- to SendBody with this very flow. *)
+Theorem c04_entry : forall f caps n,
+  prepared f -> call_invalid (i_call f) = false -> sendable (i_call f) ->
+  let a' := c_req (analysed_call (i_call f)) in
+  let g := fw_flow (fwrun f caps) in
+  send_request_can_proceed g = Ok true ->
+  has_chunked_te a' = false ->
+  (exists v, cls a' = [v] /\ is_nonempty v = true /\ forallb is_digit v = true /\ dec_value v = n) ->
+  c_req (i_call g) = a' /\ i_holder g = HWithBody /\ i_should_send_body g = true /\
+  sized_body (i_call g) n false /\
+  send_request_proceed g = Ok (Some (if i_await_100 f then TAwait100 else TSendBody, g)) /\
+  await_100_proceed g = Ok (TSendBody, g).
+Proof. exact c04_entry_lemma. Qed.
+
+(* ------------------------------------------------------------------ the observation points: Flow<SendBody> *)
+
+(** [Flow::<SendBody>::write], [consume_direct_write], [can_proceed] on a flow holding a with-body call
+    in the Content-Length body phase: the whole result of each. *)
+Theorem c04_flow_write : forall g lft ended input cap,
+  i_holder g = HWithBody -> sized_body (i_call g) lft ended ->
+  send_body_write g input cap =
+    if nonempty input && ended then Err BodyContentAfterFinish
+    else if lft <? len input then Err BodyLargerThanContentLength
+    else
+      let n := N.min (N.min cap (len input)) lft in
+      Ok (set_call g (set_writer (i_call g) {| w_mode := SSized (lft - n);
+                                               w_ended := if lft - n =? 0 then true else ended |}),
+          n, take n input).
+Proof. exact flow_write_sized. Qed.
+
+Theorem c04_flow_direct : forall g lft ended amount,
+  i_holder g = HWithBody -> sized_body (i_call g) lft ended ->
+  send_body_direct g amount =
+    if lft <? amount then Err BodyLargerThanContentLength
+    else Ok (set_call g (set_writer (i_call g) {| w_mode := SSized (lft - amount);
+                                                  w_ended := if lft - amount =? 0 then true else ended |})).
+Proof. exact flow_direct_sized. Qed.
+
+Theorem c04_flow_can_proceed : forall g lft ended,
+  i_holder g = HWithBody -> sized_body (i_call g) lft ended -> send_body_can_proceed g = Ok ended.
+Proof. exact flow_can_proceed_sized. Qed.
+
+(** Histories of Flow operations ([fstep]: [BW] = write, [BD] = consume_direct_write, through
+    [send_body_write] / [send_body_direct]; a refused operation leaves the caller with the flow it
+    had) are the call histories of [c04_invariant] carried inside the flow. *)
+Theorem c04_flow_history : forall g ops,
+  i_holder g = HWithBody ->
+  let ft := frun (fstart g) ops in
+  let t := trun (start (i_call g)) ops in
+  ft_flow ft = set_call g (t_call t) /\ ft_accounted ft = t_accounted t /\
+  ft_out ft = t_out t /\ ft_in ft = t_in t.
+Proof. intros g ops Hh. cbv zeta. rewrite (frun_start g ops Hh). repeat split. Qed.
+
+(** The invariant at the flow level, every history: accounted + remaining = N, emitted = consumed,
+    and what [can_proceed] answers; finished only at exactly N; finished once N is reached and the
+    end is signalled. *)
+Theorem c04_flow_invariant : forall g total ops,
+  i_holder g = HWithBody -> sized_body (i_call g) total false ->
+  let ft := frun (fstart g) ops in
+  exists lft ended,
+    i_holder (ft_flow ft) = HWithBody /\
+    sized_body (i_call (ft_flow ft)) lft ended /\
+    ft_accounted ft + lft = total /\
+    ft_out ft = ft_in ft /\
+    (ended = true -> lft = 0) /\
+    send_body_can_proceed (ft_flow ft) = Ok ended.
+Proof. exact flow_invariant. Qed.
+
+Theorem c04_flow_finished_only_at_total : forall g total ops,
+  i_holder g = HWithBody -> sized_body (i_call g) total false ->
+  let ft := frun (fstart g) ops in
+  ft_accounted ft <= total /\
+  (send_body_can_proceed (ft_flow ft) = Ok true -> ft_accounted ft = total).
+Proof. exact flow_finished_only_at_total. Qed.
+
+Theorem c04_flow_finish : forall g total ops cap,
+  i_holder g = HWithBody -> sized_body (i_call g) total false ->
+  let ft := frun (fstart g) ops in
+  ft_accounted ft = total ->
+  exists g', send_body_write (ft_flow ft) [] cap = Ok (g', 0, []) /\
+             send_body_can_proceed g' = Ok true.
+Proof. exact flow_finish. Qed.
+
+(** From the request to the end of the body, in one statement. *)
+Theorem c04_from_request : forall f caps n ops,
+  prepared f -> call_invalid (i_call f) = false -> sendable (i_call f) ->
+  let a' := c_req (analysed_call (i_call f)) in
+  let g := fw_flow (fwrun f caps) in
+  send_request_can_proceed g = Ok true ->
+  has_chunked_te a' = false ->
+  (exists v, cls a' = [v] /\ is_nonempty v = true /\ forallb is_digit v = true /\ dec_value v = n) ->
+  let ft := frun (fstart g) ops in
+  exists lft ended,
+    i_holder (ft_flow ft) = HWithBody /\
+    sized_body (i_call (ft_flow ft)) lft ended /\
+    ft_accounted ft + lft = n /\
+    ft_out ft = ft_in ft /\
+    (ended = true -> lft = 0) /\
+    send_body_can_proceed (ft_flow ft) = Ok ended.
+Proof. exact from_request. Qed.
+
+(** Non-vacuity with states REACHED BY RUNNING THE MODEL: POST with "content-length: 5" and
+    "expect: 100-continue"; [Flow::new]; the head goes out over buffers of 10 (too small), 30 and
+    1000 bytes; proceed leads to Await100, whose proceed leads to SendBody with the same flow; there
+    "hello" is offered into 3 bytes, then an empty write, a direct-write report of 2, an overshooting
+    write (refused), an empty write; afterwards a non-empty write is refused.  A second request has
+    "content-length: 0": nothing to account, the first empty write finishes it. *)
+Definition cl_req (v : bytes) : request :=
+  {| rq_method := POST; rq_version := V11;
+     rq_uri := {| u_scheme := s2b "http"; u_auth := s2b "a.test"; u_pq := s2b "/up" |};
+     rq_headers := [(s2b "content-length", v); (s2b "expect", s2b "100-continue")] |}.
+Definition cl_flow (v : bytes) : inner :=
+  match flow_new (cl_req v) with
+  | Ok f => f
+  | _ => {| i_call := demo_call; i_holder := HRecvBody; i_reasons := []; i_should_send_body := false;
+            i_await_100 := false; i_status := None; i_location := None |}
+  end.
+
+Example c04_flow_nonvacuous :
+  flow_new (cl_req (s2b "5")) = Ok (cl_flow (s2b "5")) /\
+  prepared (cl_flow (s2b "5")) /\ call_invalid (i_call (cl_flow (s2b "5"))) = false /\
+  sendable (i_call (cl_flow (s2b "5"))) /\
+  (let f := cl_flow (s2b "5") in
+   let a' := c_req (analysed_call (i_call f)) in
+   let g := fw_flow (fwrun f [10; 30; 1000]) in
+   send_request_can_proceed g = Ok true /\
+   has_chunked_te a' = false /\ cls a' = [s2b "5"] /\ dec_value (s2b "5") = 5 /\
+   send_request_proceed g = Ok (Some (TAwait100, g)) /\ await_100_proceed g = Ok (TSendBody, g) /\
+   sized_body (i_call g) 5 false /\ i_holder g = HWithBody /\
+   send_body_can_proceed g = Ok false /\
+   let ft := frun (fstart g) [BW (s2b "hello") 3; BW [] 0; BD 2; BW (s2b "x") 9; BW [] 9] in
+   ft_accounted ft = 5 /\ ft_out ft = s2b "hel" /\ ft_in ft = s2b "hel" /\
+   send_body_can_proceed (ft_flow ft) = Ok true /\
+   send_body_write (ft_flow ft) (s2b "x") 9 = Err BodyContentAfterFinish /\
+   ft_accounted (frun (fstart g) [BW (s2b "hello") 3; BD 1]) = 4 /\
+   send_body_can_proceed (ft_flow (frun (fstart g) [BW (s2b "hello") 3; BD 1])) = Ok false /\
+   send_body_direct (ft_flow (frun (fstart g) [BW (s2b "hello") 3; BD 1])) 2 = Err BodyLargerThanContentLength) /\
+  (let f := cl_flow (s2b "0") in
+   let g := fw_flow (fwrun f [1000]) in
+   call_invalid (i_call f) = false /\ send_request_can_proceed g = Ok true /\
+   sized_body (i_call g) 0 false /\ send_body_can_proceed g = Ok false /\
+   send_body_can_proceed (ft_flow (frun (fstart g) [BW [] 0])) = Ok true).
+Proof.
+  split; [reflexivity|]. split; [vm_compute; auto 10|]. split; [reflexivity|].
+  split; [vm_compute; repeat split; auto; discriminate|].
+  split; vm_compute; repeat split.
+Qed.
+
 Print Assumptions c04_write.
 Print Assumptions c04_direct.
 Print Assumptions c04_invariant.
@@ -91,3 +251,13 @@ Print Assumptions c04_finish.
 Print Assumptions c04_finished_iff_reached.
 Print Assumptions c04_ended_monotone.
 Print Assumptions c04_nonvacuous.
+Print Assumptions c04_entry.
+Print Assumptions c04_flow_write.
+Print Assumptions c04_flow_direct.
+Print Assumptions c04_flow_can_proceed.
+Print Assumptions c04_flow_history.
+Print Assumptions c04_flow_invariant.
+Print Assumptions c04_flow_finished_only_at_total.
+Print Assumptions c04_flow_finish.
+Print Assumptions c04_from_request.
+Print Assumptions c04_flow_nonvacuous.
